@@ -177,7 +177,7 @@ theorem mapFromList_ordered (kt : Ty) (kvs : List Val) (hk : kvs.Pairwise (keyOr
 theorem loadS_eq (rem : List Byte) (size : Nat) :
     loadS rem size = some (rem.take size ++ List.replicate (size - rem.length) 0#8, rem.drop size) := by
   unfold loadS
-  simp only
+  simp only [List.length_take]
   rw [readN_of_le _ _ (Nat.min_le_right _ _)]
   by_cases h : size ≤ rem.length
   · have h0 : size - rem.length = 0 := by omega
